@@ -411,7 +411,7 @@ def gen_cases(ctx):
             cases.append(("expr", dep, "mul", ("N", -2, "int"), H))
             cases.append(("expr", dep, "sub", ("I", -1, 2), H))
     # explicit-dependency methods on a p-box / DS structure with an operand of any kind
-    for _ in range(ctx.scale(160, 2500)):
+    for _ in range(ctx.scale(120, 2500)):
         lk = rng.choice(["pbox", "pbox", "dss"])
         rk = rng.choice(KINDS)
         op, dep = rng.choice(OPS), rng.choice(DEPS)
@@ -459,7 +459,7 @@ def model_batch_par(reqs, workers=None):
     driver processes (n*n sorts of 53-bit rationals cost about a second each)"""
     import os
     from concurrent.futures import ThreadPoolExecutor
-    workers = workers or max(1, min(8, (os.cpu_count() or 2) // 2, len(reqs) // 8 or 1))
+    workers = workers or max(1, min(12, (os.cpu_count() or 2) - 2, len(reqs) // 8 or 1))
     chunks = [list(range(w, len(reqs), workers)) for w in range(workers)]
     with ThreadPoolExecutor(workers) as ex:
         outs = list(ex.map(lambda ix: core.model_batch("C07", [reqs[i] for i in ix]), chunks))
@@ -608,13 +608,18 @@ def gen_chains(ctx):
         out.append((dep, "S", "sub", "sub", Dpos, Pw, None))            # (D - P) - D : the operand is used twice
         out.append((dep, "L", "mul", "sub", Dstr, I12, Sw))             # (D * I) - S
         out.append((dep, "R", "div", "add", Pw, ("I", -9, -7), Sw))     # P / (I + S) : the divisor is a computed p-box without zero
-    for _ in range(ctx.scale(60, 2000)):
+    for _ in range(ctx.scale(70, 2000)):
         sh = rng.choice(SHAPES)
         dep = rng.choice(DEPS)
         o1, o2 = rng.choice(OPS), rng.choice(OPS)
         if sh == "R" and o1 == "div":
             o1 = rng.choice(["add", "sub", "mul"])      # the divisor would be a computed sub-expression
         ks = [rng.choice(KINDS) for _ in range(3)]
+        heavy = dep == "i" or (dep == "f" and ("mul" in (o1, o2) or "div" in (o1, o2)))
+        if heavy and ctx.tier != "thorough":
+            # n*n sorts of 53-bit rationals cost the model about a second each: in the quick tier such histories use
+            # integer-valued p-box-like operands (distributions keep appearing under p/o and in Frechet sums)
+            ks = [("dss" if k == "dist" else k) for k in ks]
         m = 2 if sh == "S" else 3
         if all(k in LOW for k in ks[:m]):
             ks[rng.randrange(m)] = rng.choice(["pbox", "dist", "dss"])
@@ -628,7 +633,7 @@ def gen_chains(ctx):
         else:
             if o1 == "div" and sg[1] == "str": sg[1] = rng.choice(["pos", "neg"])
             if o2 == "div" and sg[0] == "str": sg[0] = rng.choice(["pos", "neg"])
-        exact = rng.random() < 0.8
+        exact = rng.random() < 0.8 or (heavy and ctx.tier != "thorough")
         a, b, c = (gen_opd(rng, ks[i], sg[i], exact) for i in range(3))
         out.append((dep, sh, o1, o2, a, b, None if sh == "S" else c))
     return out
